@@ -147,7 +147,7 @@ def check_op(acc, pendulum, z, x, xf, op, unit, wd, nth, keep_time=False):
     y, m, d = xf[:3]
     n = calref.days_from_civil(y, m, d)
     exp = expected_date(op, n, y, m, unit, wd, nth)
-    case = {"kind": "op", "z": z, "f": list(xf), "fold": getattr(x, "fold", 0), "op": op, "unit": unit, "wd": wd,
+    case = {"kind": "op", "z": z, "f": list(xf), "fold": getattr(x, "fold", 0), "op": op, "unit": unit, "wd": wd, "ws": _WS[0],
             "nth": nth, "keep": keep_time}
     if exp != "raise":
         ey = calref.civil_from_days(exp)[0]
@@ -225,8 +225,25 @@ def ops_for(thorough, full_day):
     return out
 
 
+_WS = [0]
+
+
+def _set_week(pendulum, ws):
+    """The process-wide first day of the week: none of the navigation results may depend on it."""
+    c12._set_week(pendulum, ws)
+    _WS[0] = ws
+
+
 def run_shard(shard):
     import pendulum
+    _set_week(pendulum, shard.get("ws", 0))
+    try:
+        return _run_shard(shard, pendulum)
+    finally:
+        _set_week(pendulum, 0)
+
+
+def _run_shard(shard, pendulum):
     acc = core.Acc(ID)
     k = shard["kind"]
     thorough = shard["thorough"]
@@ -294,7 +311,11 @@ def replay_case(case, acc):
         x = pendulum.DateTime(*f)
     else:
         x = pendulum.DateTime.create(*f, tz=_tz(pendulum, z), fold=case.get("fold", 1))
-    check_op(acc, pendulum, z, x, f, case["op"], case["unit"], case["wd"], case["nth"], case["keep"])
+    _set_week(pendulum, case.get("ws", 0))
+    try:
+        check_op(acc, pendulum, z, x, f, case["op"], case["unit"], case["wd"], case["nth"], case["keep"])
+    finally:
+        _set_week(pendulum, 0)
 
 
 def plan(tier, seed):
@@ -307,6 +328,10 @@ def plan(tier, seed):
     shards = [{"kind": "zones", "zones": ch, "limit": 0 if thorough else 2, "seed": seed, "witness": wz,
                "thorough": thorough} for ch in seeds.chunks(zones, 200)]
     shards += [{"kind": "calendar", "months": ch, "thorough": thorough} for ch in seeds.chunks(months, 128)]
+    # the same navigation under other first-days-of-the-week (a process-wide setting the results must not depend on)
+    wmonths = [(y, m) for y in (range(2000, 2028) if thorough else (2023, 2024)) for m in range(1, 13)]
+    for ws in ((1, 2, 3, 4, 5, 6) if thorough else (6, 3 + seed % 3)):
+        shards += [{"kind": "calendar", "months": ch, "thorough": thorough, "ws": ws} for ch in seeds.chunks(wmonths, 128)]
     return [({"ext": 1, "tz": "sys"}, shards)]
 
 
@@ -322,6 +347,7 @@ def evidence(m, tier, seed):
                 "(month n=1..6, quarter n=1..15, quarter n in {1,2,3,12..15}, year n in {1,2,27,52,53,54}; thorough: all n) on days 1/15/last "
                 "(thorough: every day); plus DateTimes (fold 0 and 1, 12:00 and 00:30) on the days around every "
                 "transition whose skipped/repeated wall interval touches a day boundary in every zone (quick: 2 per "
-                "zone); non-trivial = month shapes + anomalous-midnight receivers",
+                "zone); the calendar part again for 2023-2024 (thorough: the whole cycle) with the first day of the week "
+                "set to Sunday and one other day (thorough: all six); non-trivial = month shapes + anomalous-midnight receivers",
         "exhaustive": True,
     }, "assumptions": ["reference TZif reader for anomalous-midnight zones"]}
